@@ -99,7 +99,10 @@ def replay (c : Cfg) : RS → Nat → List String → Except String RS
 
 def countChar (s : String) (p : Char → Bool) : Nat := (s.toList.filter p).length
 
-def isTaskLetter (ch : Char) : Bool := ch == 'e' || ch == 'p' || ch == 'b'
+/-- `q`, `r`, `s` are `p` with another panic payload (literal message, formatted message, non-string value); `M` / `m`
+in a script register a monitor and are no pool operation. -/
+def isTaskLetter (ch : Char) : Bool :=
+  ch == 'e' || ch == 'p' || ch == 'q' || ch == 'r' || ch == 's' || ch == 'b'
 
 /-- The summary in the harness's format, read off the model's end state. -/
 def modelSummary (c : Cfg) (script : String) (r : RS) : String :=
